@@ -152,6 +152,37 @@ func ckSdec(s *Stream, kind string, str string) {
 	s.Emit(fmt.Sprintf("ck.sdec %s %s", kind, hxs(str)), ans)
 }
 
+// monAdmit evaluates the last clause of C18 on the implementation: for a topic name that the real message
+// validator admits, the genesis string form of topic/writer/record keys must round-trip.
+func monAdmit(s *Stream, topic string) {
+	owner := sdk.AccAddress(bytes.Repeat([]byte{5}, 20))
+	emitAddr(s, owner.String())
+	s.Emit("mon.c18.admit "+hxs(topic), guard(func() string {
+		m := aoltypes.MsgCreateTopicRequest{TopicName: topic, OwnerAddress: owner.String()}
+		if err := m.ValidateBasic(); err != nil {
+			return "rejected"
+		}
+		keys := []compkey.CompositeKey{
+			&aoltypes.TopicCompositeKey{OwnerAddress: owner, TopicName: topic},
+			&aoltypes.WriterCompositeKey{OwnerAddress: owner, TopicName: topic, WriterAddress: owner},
+			&aoltypes.RecordCompositeKey{OwnerAddress: owner, TopicName: topic, Offset: 7},
+		}
+		outs := []compkey.CompositeKey{&aoltypes.TopicCompositeKey{}, &aoltypes.WriterCompositeKey{}, &aoltypes.RecordCompositeKey{}}
+		for i, k := range keys {
+			str := compkey.EncodeToString(k, aoltypes.GenesisKeySeparator)
+			if err := compkey.DecodeFromString(str, aoltypes.GenesisKeySeparator, outs[i]); err != nil {
+				return "fail"
+			}
+			a, _ := compkey.Encode(k)
+			b, _ := compkey.Encode(outs[i])
+			if !bytes.Equal(a, b) {
+				return "fail"
+			}
+		}
+		return "pass"
+	}))
+}
+
 func compkeyOp(s *Stream, op string) {
 	f := strings.Fields(op)
 	switch f[0] {
@@ -164,6 +195,10 @@ func compkeyOp(s *Stream, op string) {
 		s.Emit(op, ckDec(unhx(f[1])))
 	case "ck.tdec":
 		s.Emit(op, ckTdec(f[1], unhx(f[2])))
+	case "mon.c18.admit":
+		monAdmit(s, string(unhx(f[1])))
+	case "ck.sdec":
+		ckSdec(s, f[1], string(unhx(f[2])))
 	default:
 		panic("compkey replay: unsupported op " + f[0])
 	}
@@ -240,6 +275,13 @@ func init() {
 				strs := []string{"", "/", "a/b", "panacea1xyz/t/1", "//", "x/y/z/w"}
 				ckSdec(s, kind, strs[rng.Intn(len(strs))])
 			}
+		}
+		// C18 last clause: every single byte value inside an otherwise valid topic name, plus assorted names
+		for c := 0; c < 256; c++ {
+			monAdmit(s, "a"+string([]byte{byte(c)})+"b")
+		}
+		for _, t := range []string{"t", "", "a/b", "/", "a.b-c_d", strings.Repeat("x", 70), strings.Repeat("x", 71), "a//", "1"} {
+			monAdmit(s, t)
 		}
 		// hand-written string-form cases: alternative spellings of offsets and addresses
 		a := sdk.AccAddress(bytes.Repeat([]byte{7}, 20)).String()
